@@ -231,6 +231,10 @@ def wsgi_path_item(environ, name):
         return None
 
 
+# Amounts are bound into SQL as signed 64-bit integers.
+MAX_RESOURCE_AMOUNT = 2 ** 63 - 1
+
+
 def normalize_resources_qs_param(qs):
     """Given a query string parameter for resources, validate it meets the
     expected format and return a dict of amounts, keyed by resource class name.
@@ -289,6 +293,15 @@ def normalize_resources_qs_param(qs):
                    'amount >= 1. Got: %(amount)d.')
             msg = msg % {
                 'resource_name': rc_name,
+                'amount': amount,
+            }
+            raise webob.exc.HTTPBadRequest(msg)
+        if amount > MAX_RESOURCE_AMOUNT:
+            msg = ('Requested resource %(resource_name)s requires '
+                   'amount <= %(max)d. Got: %(amount)d.')
+            msg = msg % {
+                'resource_name': rc_name,
+                'max': MAX_RESOURCE_AMOUNT,
                 'amount': amount,
             }
             raise webob.exc.HTTPBadRequest(msg)
